@@ -449,7 +449,24 @@ def forked_body(ctx, case):
         seen[h] = (who, kind, i)
 
 
+def thread_cases(tier):
+    return [{"kind": "ft", "N": 256}, {"kind": "ft_sh", "N": 256}, {"kind": "ft", "N": 512}]
+
+
+def thread_body(ctx, case):
+    """Seeded screens generated at the same time by threads of one process (a thread pool over layers, equal sizes) are
+    bit-identical to the same seeded screens generated one after the other."""
+    ps_, ips, _, _ = T()
+    f = ps_.ft_sh_phase_screen if case["kind"] == "ft_sh" else ps_.ft_phase_screen
+    N = case["N"]
+    ctx.case(case, nontrivial=True, classes=["kind_" + case["kind"], "N%d" % N])
+    with warnings.catch_warnings():
+        warnings.simplefilter("ignore")
+        ctx.thread_agreement([(lambda i=i: f(0.16, N, 0.05, 25.0, 0.01, seed=1000 + i)) for i in range(8)], "seeded " + case["kind"] + " screens", threads=4, rounds=2)
+
+
 LAWS = [
+    plain_law("threads", thread_cases, thread_body, shards={"quick": 3, "thorough": 3}),
     plain_law("forked_workers_distinct", forked_cases, forked_body, shards={"quick": 2, "thorough": 3}),
     plain_law("unseeded_all_distinct", unseeded_cases, unseeded_body, shards={"quick": 4, "thorough": 4}),
     given_law("order_independence", neighbour_cases(), neighbour_body, {"quick": 3, "thorough": 20}, shards={"quick": 6, "thorough": 16}),
